@@ -228,7 +228,7 @@ def units(tier):
     return u
 
 
-BUDGET = {"quick": 200, "thorough": 2400}
+BUDGET = {"quick": 200, "thorough": 1200}
 UNIT_PATH_CAP = {"quick": 6000, "thorough": 200000}
 BOUNDS = {
     "quick": "configurations: 1-2 senders x 1-2 items (send or send_from), 1-2 receivers (receive() loop or async-for, gated before every receive or free-running after the first gate), one closer, optionally cancellation of one "
